@@ -54,7 +54,9 @@ def case_basic(draw, tier):
              bmode=draw(st.sampled_from(['vector', 'vector', 'none'])),
              eps=draw(st.sampled_from([None, 1e-10, 1e-12, 1e-8])),
              seedperm=draw(st.integers(0, 10**6)),
-             cplx=draw(st.integers(0, 3)) == 0)
+             cplx=draw(st.integers(0, 3)) == 0,
+             # prescribed values in small units (1e-9-ish, exactly 2^-30 times the drawn numbers): as good as any other values
+             xscale=draw(st.sampled_from([0, 0, 0, -30, 20])))
     return s
 
 
@@ -145,6 +147,10 @@ def body_basic(c, ctx):
     if c.get('cplx'):
         b0 = b0 * (1 + 0.25j)
         x0 = x0 * (1 - 0.5j)
+    if c.get('xscale'):
+        x0 = x0 * 2.0 ** c['xscale']
+        if c['xscale'] < 0:
+            b0 = b0 * 2.0 ** c['xscale']          # data of the same small size: the comparison scales below follow it
     I, D = split(c)
     empty, nodiag, unsym, xnz = features(c)
     ctx.cls(c['fmt'], 'spec:' + c['spec'], 'complex' if c.get('cplx') else 'real', 'emptyrow' if empty else 'no-emptyrow', 'nodiag' if nodiag else 'diag',
